@@ -524,6 +524,22 @@ def build(inp) -> Case:
         if snapshot(gh) != snap_h:
             fail("source-unchanged", "the object changed during the query history", "history-mutates")
         judges.append(("cm", hist_obs))
+        # swap() AFTER the history (the per-group cache of gh is now filled): the swapped object must answer like the
+        # swap of a fresh object (C12_swap + C12_cache_fresh: a new object starts with an empty, hence correct, cache)
+        r1, r2 = common.call(gh.swap), common.call(construct().swap)
+        evals += 2
+        if r1[0] != r2[0]:
+            fail("swap", f"swap() after the history {inp['hist']}: {r1[:2]}, on a fresh object: {r2[:2]}", "swap-after-history")
+        elif r1[0] == "ok":
+            s1, s2 = r1[1], r2[1]
+            for gname in list(np.asarray(s2.groups).tolist()):
+                for h in (["gi", gname],) + tuple(["gcm", k] for k in range(len(ts))):
+                    a1, a2 = ask(s1, h), ask(s2, h)
+                    evals += 2
+                    if a1 != a2:
+                        fail("swap", f"after the history {inp['hist']}, swap() answers {h} (group {gname!r}) with {_short(a1, 6)}; "
+                             f"the swap of a fresh object gives {_short(a2, 6)}", "swap-after-history")
+                        break
 
     # ------------------------------------------------------------------ sampling
     def obs_sample(r, run, what):
